@@ -293,7 +293,17 @@ def sqrt_node(x):
                     return C(Q3(0, Fraction(rm, rd)))
     r = CTX.sqrt_cache.get(x.id)
     if r is None:
-        r = CTX.var(f'sqrt@{x.id}', kind='nonneg', defn=('sqrt', x))
+        # one atom per radicand *value*: key on the exact normal form
+        from . import normal
+        try:
+            nf = normal.convert(x)
+            key = (frozenset(nf[0].items()), frozenset(nf[1].items()))
+        except Exception:
+            key = ('id', x.id)
+        r = CTX.sqrt_cache.get(key)
+        if r is None:
+            r = CTX.var(f'sqrt@{x.id}', kind='nonneg', defn=('sqrt', x))
+            CTX.sqrt_cache[key] = r
         CTX.sqrt_cache[x.id] = r
     return r
 
@@ -445,6 +455,52 @@ class Point:
                 r = abs(v) if isinstance(v, (int, float)) and not isinstance(v, bool) else 0.0
             mc[n.id] = r
         return mc[root.id]
+
+    def eval_mp(self, root, dps=60):
+        """high-precision evaluation (mpmath) of an arithmetic node at this point"""
+        import mpmath
+        mpmath.mp.dps = dps
+        mc = {}
+        s3 = mpmath.sqrt(3)
+
+        def atom(name):
+            info = CTX.atoms[name]
+            d = info.get('defn')
+            if d is not None:
+                x = ev(d[1])
+                return mpmath.sqrt(x) if d[0] == 'sqrt' else x
+            if name == 'PI':
+                return mpmath.pi
+            return mpmath.mpf(self.atom(name))
+
+        def ev(r):
+            for n in topo([r]):
+                if n.id in mc:
+                    continue
+                op = n.op
+                if op == 'c':
+                    v = mpmath.mpf(n.val.a.numerator) / n.val.a.denominator
+                    if n.val.b != 0:
+                        v += mpmath.mpf(n.val.b.numerator) / n.val.b.denominator * s3
+                elif op == 'v':
+                    v = atom(n.val)
+                elif op == '+':
+                    v = mc[n.args[0].id] + mc[n.args[1].id]
+                elif op == '*':
+                    v = mc[n.args[0].id] * mc[n.args[1].id]
+                elif op == '/':
+                    v = mc[n.args[0].id] / mc[n.args[1].id]
+                elif op == '^':
+                    v = mc[n.args[0].id] ** n.val
+                elif op == 'rpow':
+                    v = mc[n.args[0].id] ** (mpmath.mpf(n.val.numerator) / n.val.denominator)
+                elif op == 'fn':
+                    v = mpmath.mpf(CTX.fn_impl[n.val](*[float(mc[a.id]) for a in n.args]))
+                else:
+                    raise EngineLimit(f'eval_mp: op {op}')
+                mc[n.id] = v
+            return mc[r.id]
+        return ev(root)
 
     def eval(self, root):
         cache = self.cache
